@@ -47,6 +47,17 @@ impl Ctx {
     }
 }
 
+/// Generator options of the concurrent families for the enabled oracles
+pub fn gen_opts(props: Props) -> GenOpts {
+    GenOpts {
+        thorough: THOROUGH.load(std::sync::atomic::Ordering::Relaxed),
+        custom: props.has(13),
+        solo_points: if props.has(21) { 3 } else { 0 },
+        stall_bias: props.has(3) || props.has(21),
+        probes: props.has(10),
+    }
+}
+
 fn add(c: &mut BTreeMap<String, u64>, k: &str, v: u64) {
     *c.entry(k.to_string()).or_default() += v;
 }
@@ -76,13 +87,7 @@ impl Case {
     pub fn generate(family: &str, seed: u64, index: u64, props: Props) -> (Case, Option<(Rng, usize)>) {
         let mut rng = Rng::new(seed);
         if family.starts_with('K') {
-            let o = GenOpts {
-                thorough: THOROUGH.load(std::sync::atomic::Ordering::Relaxed),
-                custom: props.has(13),
-                solo_points: if props.has(21) { 3 } else { 0 },
-                stall_bias: props.has(3) || props.has(21),
-                probes: props.has(10),
-            };
+            let o = gen_opts(props);
             (Case::Conc(crate::conc::gen_case(&mut rng, family, &o)), None)
         } else if family.starts_with('Q') && SpecialCase::is_special(family) {
             (Case::Special(SpecialCase::generate(family, seed, index)), None)
